@@ -7,50 +7,25 @@
    The seeded change C02-r2m1 / C16-r2m2 (guard and TrimSpace swapped) breaks exactly this. *)
 From Coq Require Import List String Ascii ZArith Bool Lia.
 From Verif Require Import Base.Prelude Base.Str Base.Float Base.GoVal
-  Schema.Regex Schema.Units Schema.FloatUnits Schema.Syntax Schema.Ops Proofs.C02Containers Proofs.C17.
+  Schema.Regex Schema.Units Schema.FloatUnits Schema.Syntax Schema.Ops Proofs.C02Containers Proofs.C17 Proofs.TrimSpaceU.
 Import ListNotations.
 Open Scope Z_scope.
 
-(* strings.TrimSpace leaves nothing *)
+(* strings.TrimSpace (Unicode white space, UTF-8 aware: Base/Str.v trim_space) leaves nothing *)
 Definition blank_text (s : string) : Prop := chars (trim_space s) = [].
 
 Lemma c02b_chars_unchars : forall l, chars (unchars l) = l.
 Proof. intro l. unfold chars, unchars. apply list_ascii_of_string_of_list_ascii. Qed.
 
-Lemma c02b_drop_while_nil : forall p (l : list ascii), drop_while p l = [] -> forallb p l = true.
-Proof.
-  intros p l. induction l as [|c t IH]; cbn; [reflexivity|].
-  destruct (p c) eqn:Hp; [intro H; rewrite (IH H); reflexivity | discriminate].
-Qed.
+(* blank = a sequence of white-space characters, each one of the six ASCII ones or the UTF-8 encoding of one of
+   unicode.IsSpace's others (Base/Str.v is_uspace_enc; Proofs/TrimSpaceU.v) - both directions *)
+Lemma blank_all_space : forall s, blank_text s ->
+  exists rs, Forall (fun r => is_uspace_enc r = true) rs /\ chars s = List.concat rs.
+Proof. intros s H. apply (proj1 (trim_space_blank_iff s)). exact H. Qed.
 
-Lemma c02b_drop_while_head : forall p (l : list ascii) c t, drop_while p l = c :: t -> p c = false.
-Proof.
-  intros p l. induction l as [|x l' IH]; cbn; intros c t H; [discriminate|].
-  destruct (p x) eqn:Hp; [exact (IH _ _ H)|]. injection H as -> _. exact Hp.
-Qed.
-
-(* blank = every character is one of TrimSpace's (ASCII) white-space characters *)
-Lemma blank_all_space : forall s, blank_text s -> forallb is_trim_space (chars s) = true.
-Proof.
-  intros s H. unfold blank_text, trim_space in H. rewrite c02b_chars_unchars in H.
-  destruct (drop_while is_trim_space (chars s)) as [|c t] eqn:HX.
-  - exact (c02b_drop_while_nil _ _ HX).
-  - exfalso. pose proof (c02b_drop_while_head _ _ _ _ HX) as Hc.
-    assert (Hr : rev (rev (drop_while is_trim_space (rev (c :: t)))) = rev []) by (rewrite H; reflexivity).
-    rewrite rev_involutive in Hr. cbn [rev] in Hr.
-    pose proof (c02b_drop_while_nil _ _ Hr) as Hall.
-    rewrite forallb_app in Hall. apply andb_true_iff in Hall. destruct Hall as [_ Hall].
-    cbn in Hall. rewrite Hc in Hall. discriminate.
-Qed.
-
-Lemma all_space_blank : forall s, forallb is_trim_space (chars s) = true -> blank_text s.
-Proof.
-  intros s H. unfold blank_text, trim_space. rewrite c02b_chars_unchars.
-  assert (Hd : forall l, forallb is_trim_space l = true -> drop_while is_trim_space l = []).
-  { induction l as [|c t IH]; cbn; [reflexivity|]. intro Hl. apply andb_true_iff in Hl. destruct Hl as [Hc Ht].
-    rewrite Hc. exact (IH Ht). }
-  rewrite (Hd _ H). reflexivity.
-Qed.
+Lemma all_space_blank : forall s,
+  (exists rs, Forall (fun r => is_uspace_enc r = true) rs /\ chars s = List.concat rs) -> blank_text s.
+Proof. intros s H. apply (proj2 (trim_space_blank_iff s)). exact H. Qed.
 
 (* with units: trimmed to nothing, refused before the regular expression is consulted *)
 Lemma parse_units_blank : forall u s, blank_text s -> parse_units u s = UErr.
@@ -70,12 +45,31 @@ Proof.
   destruct b0, b1, b2, b3, b4, b5, b6, b7; vm_compute; intro H; try discriminate H; repeat split.
 Qed.
 
+(* the first byte of an encoded white-space character (ASCII, or 0xC2 / 0xE1 / 0xE2 / 0xE3) is neither a sign nor a digit *)
+Lemma enc_head_not_numeric : forall c r, is_uspace_enc (c :: r) = true ->
+  Ascii.eqb c "-"%char = false /\ Ascii.eqb c "+"%char = false /\ is_digit c = false.
+Proof.
+  intros c r H. destruct (sp_enc_shape _ _ _ H) as [(c0 & E & P)|[(c0 & d & E & P)|(c0 & d & e & E & P)]];
+    inversion E; subst; clear E.
+  - exact (space_not_numeric c0 P).
+  - split; [|split].
+    + destruct (Ascii.eqb_spec c0 "-"%char) as [->|]; [vm_compute in P; discriminate | reflexivity].
+    + destruct (Ascii.eqb_spec c0 "+"%char) as [->|]; [vm_compute in P; discriminate | reflexivity].
+    + revert P. unfold usp2, is_digit. cbv zeta. lia.
+  - split; [|split].
+    + destruct (Ascii.eqb_spec c0 "-"%char) as [->|]; [vm_compute in P; discriminate | reflexivity].
+    + destruct (Ascii.eqb_spec c0 "+"%char) as [->|]; [vm_compute in P; discriminate | reflexivity].
+    + revert P. unfold usp3, is_digit. cbv zeta. lia.
+Qed.
+
 Lemma parse_int_blank : forall s, blank_text s -> parse_int s = None.
 Proof.
-  intros s H. pose proof (blank_all_space s H) as Hall. unfold parse_int.
+  intros s H. destruct (blank_all_space s H) as (rs & F & E). unfold parse_int.
   destruct (chars s) as [|c t]; [reflexivity|].
-  cbn [forallb] in Hall. apply andb_true_iff in Hall. destruct Hall as [Hc _].
-  destruct (space_not_numeric c Hc) as (Hm & Hp & Hd).
+  assert (A : exists r', is_uspace_enc (c :: r') = true).
+  { clear -F E. induction F as [|r rs Hr F IH]; [discriminate|].
+    destruct r as [|c0 r0]; [discriminate Hr|]. cbn [List.concat app] in E. inversion E; subst. exists r0. exact Hr. }
+  destruct A as (r' & Hr). destruct (enc_head_not_numeric c r' Hr) as (Hm & Hp & Hd).
   rewrite Hm, Hp. cbn [all_digits]. rewrite Hd. reflexivity.
 Qed.
 
@@ -138,4 +132,15 @@ Example blank_texts_are_blank :
 Proof.
   repeat split; try (vm_compute; reflexivity).
   vm_compute. discriminate.
+Qed.
+
+(* ... and so are the Unicode ones: NBSP (C2 A0), NEL (C2 85), U+3000 (E3 80 80), U+2003 (E2 80 83), U+2028 (E2 80 A8),
+   \v; the bytes A0 / 85 alone (invalid UTF-8), U+200B and a padded count are not *)
+Example blank_texts_unicode :
+  blank_text (bytes_str [194; 160]%Z) /\ blank_text (bytes_str [194; 133]%Z) /\ blank_text (bytes_str [227; 128; 128]%Z) /\
+  blank_text (bytes_str [226; 128; 131; 32; 226; 128; 168; 11]%Z) /\
+  ~ blank_text (bytes_str [160]%Z) /\ ~ blank_text (bytes_str [133]%Z) /\ ~ blank_text (bytes_str [226; 128; 139]%Z) /\
+  ~ blank_text (bytes_str [194; 160; 48; 194; 160]%Z) /\ ~ blank_text (bytes_str [226; 128]%Z).
+Proof.
+  repeat split; try (vm_compute; reflexivity); vm_compute; discriminate.
 Qed.
